@@ -276,7 +276,8 @@ let vfmode file =
                   | _ -> ((zi 0, zi 0), zi 0)) rest);
         print_endline line
     | "open" :: _ -> print_endline line
-    | ["halfrate"; r] -> if r = "0" then begin hs := 1 end; print_endline line
+    | ["halfrate"; _] ->
+        let s = get () in let (r, s') = halfrate s true in st := Some s'; Printf.printf "halfrate %d\n" (iz r)
     | "links" :: _ ->
         let s = get () in
         Printf.printf "links %d total %d" (List.length s.v_links) (iz (pcm_total s));
@@ -311,6 +312,7 @@ let vfmode file =
                    let (rc, s') = (if String.sub tok 0 3 = "ts:" then pcm_seek s (zi target) else pcm_seek_page s (zi target)) in
                    st := Some s'; show tok (iz rc) (-1) time implraw
              end
+         | "hr:" -> let (r, s') = halfrate s (arg () <> 0) in st := Some s'; show tok (iz r) (-1) time implraw
          | "rf:" -> let ((r, lk), s') = read_float (read_fuel s) s (zi (arg ())) in st := Some s'; show tok (iz r) (iz lk) time implraw
          | _ -> print_endline line)
     | "holes" :: _ | "closes" :: _ -> print_endline line
